@@ -137,7 +137,7 @@ def _check_closure(run, f, outer):
     name = outer.name
     shift_pi, d_want, frame, desc = LAYOUT[name]
     run.note_func(f, outer)
-    ev = sym.make_evaluator(project, S, [])
+    ev = sym.make_evaluator(project, S, [], inline_local=True)
     ro = ev.run(outer.node)
     if f.name not in ro.nested:
         run.undecided("C11.R1", f, None, "closure not reachable in its factory", kind="closure")
